@@ -90,6 +90,7 @@ def units(tier, seed):
   shared = [d for d in dsl.defs_upto(2, 0, LEAVES[:6])]
   for i in range(0, len(shared), 8):
     us.append(dict(kind='shared', defs=[dsl.tolist(d) for d in shared[i:i + 8]]))
+  us.append(dict(kind='share_scope'))
   # auto-named children created in helper methods, plain or wrapped in a lifted transform
   hs = _helper_programs(tier)
   for i in range(0, len(hs), 24):
@@ -125,6 +126,8 @@ def run_unit(unit):
   elif unit['kind'] == 'clash':
     for cls, dl in unit['progs']:
       _clash(res, cls, dsl.fromlist(dl))
+  elif unit['kind'] == 'share_scope':
+    _share_scope(res)
   elif unit['kind'] == 'helper':
     for prog in unit['progs']:
       _helper(res, tuple(tuple(sl) for sl in prog))
@@ -132,6 +135,106 @@ def run_unit(unit):
     for dl in unit['defs']:
       _shared(res, dsl.fromlist(dl))
   return res
+
+
+def _share_scope(res):
+  """nn.share_scope(wrapper, block) re-attaches the block's children under the wrapper: every
+  module still owns its own subtree when the names differ, and a name that is already taken in
+  the wrapper (by a submodule, a param or a variable) is reported as a clash, never shared.
+  Names x what holds the name in the wrapper x setup / compact wrapper x one or two block
+  children."""
+  import jax
+  import jax.numpy as jnp
+  import flax.linen as nn
+  x = jnp.asarray([1.0, 2.0], jnp.float32)
+  rngs = {'params': jax.random.key(4)}
+
+  class Kid(nn.Module):
+    @nn.compact
+    def __call__(self, x):
+      return x * self.param('w', lambda k: jnp.floor(jax.random.uniform(k, (2,)) * 8) + 1)
+
+  class Block(nn.Module):
+    kids: tuple = ()
+
+    def __call__(self, x):
+      for k in self.kids:
+        x = k(x) + 1
+      return x
+
+  def wrapper(style, holder, own_name, kid_names):
+    def mk_block():
+      return Block(kids=tuple(Kid(name=n) for n in kid_names))
+
+    def own(self, x):
+      if holder == 'module':
+        return Kid(name=own_name)(x) if style == 'compact' else self.own(x)
+      if holder == 'param':
+        return x * self.param(own_name, lambda k: jnp.ones((2,)) * 3)
+      return x * self.variable('params', own_name, lambda: jnp.ones((2,)) * 5).value
+
+    if style == 'setup':
+      class W(nn.Module):
+        def setup(self):
+          if holder == 'module':
+            self.own = Kid(name=own_name)
+          self.block = mk_block()
+          nn.share_scope(self, self.block)
+
+        def __call__(self, x):
+          return self.block(x) + 10.0 * own(self, x)
+    else:
+      class W(nn.Module):
+        @nn.compact
+        def __call__(self, x):
+          y = own(self, x)
+          block = mk_block()
+          nn.share_scope(self, block)
+          return block(x) + 10.0 * y
+    return W()
+
+  for style in ('setup', 'compact'):
+    for holder in ('module', 'param', 'variable'):
+      if style == 'setup' and holder != 'module':
+        continue      # params / variables cannot be declared in setup before the block
+      for own_name in ('p', 'q', 'z'):
+        for kid_names in (('p',), ('p', 'q'), ('q', 'p')):
+          clash = own_name in kid_names
+          key = f'{style}|{holder}|{own_name}|{",".join(kid_names)}'
+          case = dict(style=style, holder=holder, own_name=own_name, kid_names=list(kid_names))
+          res['evals'] += 1
+          try:
+            y, vs = wrapper(style, holder, own_name, kid_names).init_with_output(rngs, x)
+            err = None
+          except Exception as e:  # noqa
+            err = e
+          if clash:
+            if err is None:
+              core.violation(res, f'share-scope-clash-accepted|{key}',
+                             'a name taken in the wrapper was given to a re-attached child as '
+                             'well: init succeeded and two owners share one subtree', case,
+                             observed=jsonable(_shapes(vs)))
+            elif _kind(err) != 'name':
+              core.violation(res, f'share-scope-clash-kind|{key}',
+                             f'clash reported as {_kind(err)}, not as a name clash', case)
+            core.outcome(res, 'share-scope:clash-' + ('accepted' if err is None else 'raises'))
+          else:
+            if err is not None:
+              core.violation(res, f'share-scope-raises|{key}', f'{type(err).__name__}: {err}'[:300],
+                             case)
+              continue
+            want = sorted(set(kid_names) | {own_name})
+            if sorted(vs['params']) != want:
+              core.violation(res, f'share-scope-tree|{key}',
+                             'children re-attached by share_scope do not sit next to the '
+                             'wrapper\'s own entries', case, observed=sorted(vs['params']),
+                             expected=want)
+            y2 = wrapper(style, holder, own_name, kid_names).apply(vs, x)
+            if canon_tree(np.asarray(y2)) != canon_tree(np.asarray(y)):
+              core.violation(res, f'share-scope-apply|{key}', 'apply(init vars) != init output', case)
+            core.outcome(res, 'share-scope:ok')
+          res['nontrivial'].append(core.h(key))
+  res['samples'].append(dict(kind='share_scope'))
 
 
 _HELPER_CLS = None
